@@ -7,6 +7,7 @@ import (
 	"bytes"
 	"encoding/json"
 	"fmt"
+	"math/rand"
 	"os"
 	"path/filepath"
 	"runtime/debug"
@@ -110,6 +111,23 @@ func readAll(seg segment.Segment, tb *cpTables) (bad string) {
 	return ""
 }
 
+// firstDiff shows where two serialised observations part.
+func firstDiff(a, b string) string {
+	i := 0
+	for i < len(a) && i < len(b) && a[i] == b[i] {
+		i++
+	}
+	lo := i - 60
+	if lo < 0 {
+		lo = 0
+	}
+	hi := i + 120
+	if hi > len(a) {
+		hi = len(a)
+	}
+	return fmt.Sprintf("at byte %d: ...%s", i, a[lo:hi])
+}
+
 func runRefCount(walksPath, tablesPath, dir, outPath string, stress int) {
 	var tb cpTables
 	raw, err := os.ReadFile(tablesPath)
@@ -134,6 +152,23 @@ func runRefCount(walksPath, tablesPath, dir, outPath string, stress int) {
 		fatal2("refcount setup: %v", err)
 	}
 	data, _ := os.ReadFile(base)
+	// "fully readable": besides the tables from the model, the complete query surface (dictionaries, postings with
+	// details, doc values, thesauri, iterator probes) must keep answering what a fresh handle answers
+	uni := universeOf(tb.Batch)
+	probes := probesFor(uni, rand.New(rand.NewSource(1)), len(tb.Batch), false)
+	surface := func(seg segment.Segment) string { return js(Observe(seg, probes)) }
+	var baseline string
+	{
+		fresh, err := plugin.Open(base)
+		if err != nil {
+			fatal2("refcount setup: %v", err)
+		}
+		baseline = surface(fresh)
+		if again := surface(fresh); again != baseline {
+			fatal2("refcount setup: the query surface of a fresh handle is not stable")
+		}
+		fresh.Close()
+	}
 	var diffs []rcDiff
 	nw, nops := 0, 0
 	forEachLine(walksPath, func(line []byte) {
@@ -192,6 +227,10 @@ func runRefCount(walksPath, tablesPath, dir, outPath string, stress int) {
 					diff(i, "read while references are held", bad, "the segment's content")
 					break
 				}
+				if got := surface(seg); got != baseline {
+					diff(i, "query surface while references are held", firstDiff(got, baseline), "what a fresh handle answers")
+					break
+				}
 			} else {
 				if m := mappingsOf(path); m != 0 {
 					diff(i, "mappings after the last release", m, 0)
@@ -229,6 +268,11 @@ func runRefCount(walksPath, tablesPath, dir, outPath string, stress int) {
 					if bad := readAll(seg, &tb); bad != "" {
 						mu.Lock()
 						diffs = append(diffs, rcDiff{Step: -2, What: "concurrent read while references are held", Got: bad})
+						mu.Unlock()
+					}
+					if got := surface(seg); got != baseline {
+						mu.Lock()
+						diffs = append(diffs, rcDiff{Step: -2, What: "concurrent query surface while references are held", Got: firstDiff(got, baseline)})
 						mu.Unlock()
 					}
 					if k == h%3 {
